@@ -29,8 +29,9 @@ def gen_item(rng, g, ns, classes, k):
     """-> (raw selector, raw label, abstract selector)"""
     nodes = sorted(set(s[1] for s, p, o in g if s[0] == 'I'))
     props = sorted(set(p for s, p, o in g))
-    label_iri = SH_NS + "S%d" % k
-    label = "<%s>" % label_iri if rng.random() < 0.6 else "sx:S%d" % k
+    loc = "S%d" % k if rng.random() < 0.7 else "S%d:%s" % (k, rng.choice(['adult', 'x:y', '1']))     # ':' is legal inside a local name
+    label_iri = SH_NS + loc
+    label = "<%s>" % label_iri if rng.random() < 0.6 else "sx:" + loc
     r = rng.random()
     if r < 0.3 and nodes:
         n = rng.choice(nodes) if rng.random() < 0.85 else EX + "ghost"
@@ -308,6 +309,13 @@ def run(ctx):
             cfg = gen.gen_cfg(rng, g, inst_prop=ip, presentation=False, allow_cap=False, allow_ignore=False)
             cfg['report'] = 'mixed'
             cfg['disable_comments'] = False
+            if rng.random() < 0.15:
+                # the namespace of the instantiation property among the namespaces to ignore: the constraints on it go, the SELECTION stays
+                # (which nodes stand behind a shape is read from the instantiation triples whatever the feature pass ignores)
+                ipns = ip[:max(ip.rfind('#'), ip.rfind('/')) + 1]
+                cfg['ignore_ns'] = [ipns] if rng.random() < 0.6 else [EX + 'zz/', ipns]
+                cfg['remove_empty'] = False
+                stats["instprop_namespace_ignored"] = stats.get("instprop_namespace_ignored", 0) + 1
             if cfg['target_mode'] == 'classes':
                 nsd = dict(DEFAULT_NS)
                 cfg['ns_dict'] = nsd
